@@ -1,5 +1,6 @@
 import Aqv.Base.Proto
 import Aqv.Model.Rlp
+import Aqv.Model.RlpTyped
 open Aqv Aqv.Rlp Aqv.Proto
 
 /-- parse the rendering produced by `Item.render` (and by the Go harness): `s<hex>` | `[i,i,...]`. -/
@@ -47,6 +48,152 @@ def outSplit (bs : Bytes) : String :=
   | .ok (.list n rest) =>
     if rest.length < n then "err" else "ok L " ++ hexOrDash (rest.take n) ++ " " ++ hexOrDash (rest.drop n)
 
+/-! ### typed layer: type descriptors, value renderings -/
+
+def takeDigits (cs : List Char) : Nat × List Char :=
+  let ds := cs.takeWhile Char.isDigit
+  (ds.foldl (fun acc c => acc * 10 + (c.toNat - 48)) 0, cs.dropWhile Char.isDigit)
+
+/-- type descriptors: `u8 u16 u32 u64 big bool b b<N> l(T) a<N>(T) s(T,…) st(T,…;T) p(T) pn(T) raw if`. -/
+partial def parseTy (cs : List Char) : Option (Ty × List Char) :=
+  let rec tys (cs : List Char) (acc : List Ty) : Option (List Ty × List Char) :=
+    -- parses `T,T,…` up to (not including) `)` or `;`
+    match cs with
+    | ')' :: _ => some (acc.reverse, cs)
+    | ';' :: _ => some (acc.reverse, cs)
+    | _ =>
+      match parseTy cs with
+      | some (t, ',' :: r) => tys r (t :: acc)
+      | some (t, r) => some ((t :: acc).reverse, r)
+      | none => none
+  match cs with
+  | 'u' :: r =>
+    match takeDigits r with
+    | (0, _) => none
+    | (n, r') => some (.uint n, r')
+  | 'b' :: 'i' :: 'g' :: r => some (.big, r)
+  | 'b' :: 'o' :: 'o' :: 'l' :: r => some (.bool, r)
+  | 'b' :: r =>
+    match r with
+    | c :: _ => if c.isDigit then (let (n, r') := takeDigits r; some (.bytesN n, r')) else some (.bytes, r)
+    | [] => some (.bytes, [])
+  | 'r' :: 'a' :: 'w' :: r => some (.raw, r)
+  | 'i' :: 'f' :: r => some (.iface, r)
+  | 'l' :: '(' :: r =>
+    match parseTy r with
+    | some (t, ')' :: r') => some (.list t, r')
+    | _ => none
+  | 'a' :: r =>
+    match takeDigits r with
+    | (n, '(' :: r') =>
+      match parseTy r' with
+      | some (t, ')' :: r'') => some (.arr n t, r'')
+      | _ => none
+    | _ => none
+  | 's' :: 't' :: '(' :: r =>
+    match tys r [] with
+    | some (fs, ';' :: r') =>
+      match parseTy r' with
+      | some (t, ')' :: r'') => some (.structTail fs t, r'')
+      | _ => none
+    | _ => none
+  | 's' :: '(' :: r =>
+    match tys r [] with
+    | some (fs, ')' :: r') => some (.struct fs, r')
+    | _ => none
+  | 'p' :: 'n' :: '(' :: r =>
+    match parseTy r with
+    | some (t, ')' :: r') => some (.ptrNil t, r')
+    | _ => none
+  | 'p' :: '(' :: r =>
+    match parseTy r with
+    | some (t, ')' :: r') => some (.ptr t, r')
+    | _ => none
+  | _ => none
+
+def parseTyStr (s : String) : Option Ty :=
+  match parseTy s.toList with
+  | some (t, []) => some t
+  | _ => none
+
+/-- parsed value rendering: `s<hex>` string, `r<hex>` raw bytes, `n` nil pointer (tenc only), `[…]` list. -/
+inductive PVal where
+  | s (b : Bytes)
+  | r (b : Bytes)
+  | n
+  | l (xs : List PVal)
+  deriving Inhabited
+
+partial def parsePVal (cs : List Char) : Option (PVal × List Char) :=
+  let leaf (rest : List Char) (mk : Bytes → PVal) : Option (PVal × List Char) :=
+    let hex := rest.takeWhile (fun c => c != ',' && c != ']')
+    let rem := rest.dropWhile (fun c => c != ',' && c != ']')
+    match bytesOfHexAux hex [] with
+    | some b => some (mk b, rem)
+    | none => none
+  match cs with
+  | 's' :: rest => leaf rest .s
+  | 'r' :: rest => leaf rest .r
+  | 'n' :: rest => some (.n, rest)
+  | '[' :: ']' :: rest => some (.l [], rest)
+  | '[' :: rest =>
+    let rec go (cs : List Char) (acc : List PVal) : Option (List PVal × List Char) :=
+      match parsePVal cs with
+      | some (it, ',' :: r) => go r (it :: acc)
+      | some (it, ']' :: r) => some ((it :: acc).reverse, r)
+      | _ => none
+    match go rest [] with
+    | some (xs, r) => some (.l xs, r)
+    | none => none
+  | _ => none
+
+def parsePValStr (s : String) : Option PVal :=
+  match parsePVal s.toList with
+  | some (v, []) => some v
+  | _ => none
+
+partial def PVal.toG : PVal → Option GItem
+  | .s b => some (.str b)
+  | .r b => some (.rawv b)
+  | .n => none
+  | .l xs => (xs.mapM PVal.toG).map .list
+
+partial def PVal.toItem : PVal → Option Item
+  | .s b => some (.str b)
+  | .l xs => (xs.mapM PVal.toItem).map .list
+  | _ => none
+
+/-- read a rendered Go value as a value of type `ty` (inverse of the harness' `specItem` rendering). -/
+partial def fromP : Ty → PVal → Option Val
+  | .uint _, .s b => some (.num (beNat b))
+  | .big, .s b => some (.num (beNat b))
+  | .bool, .s [] => some (.bool false)
+  | .bool, .s [1] => some (.bool true)
+  | .bytes, .s b => some (.bytes b)
+  | .bytesN _, .s b => some (.bytes b)
+  | .list t, .l xs => (xs.mapM (fromP t)).map .list
+  | .arr _ t, .l xs => (xs.mapM (fromP t)).map .list
+  | .struct fs, .l xs =>
+    if fs.length = xs.length then ((fs.zip xs).mapM (fun (t, x) => fromP t x)).map .list else none
+  | .structTail fs t, .l xs =>
+    if fs.length ≤ xs.length then
+      match ((fs.zip (xs.take fs.length)).mapM (fun (t, x) => fromP t x)), ((xs.drop fs.length).mapM (fromP t)) with
+      | some a, some b => some (.tail a b)
+      | _, _ => none
+    else none
+  | .ptr _, .n => some .pnil
+  | .ptrNil _, .n => some .pnil
+  | .ptr t, x => (fromP t x).map .psome
+  | .ptrNil t, x => (fromP t x).map .psome
+  | .raw, .r b => some (.bytes b)
+  | .iface, x => x.toItem.map .item
+  | _, _ => none
+
+def outTDec (ty : Ty) (bs : Bytes) : String :=
+  match decTop ty bs with
+  | .ok v => "ok " ++ (toG ty v).render
+  | .error _ => "err"
+
 def handle (l : String) : String :=
   let (inp, go) := splitCase l
   match fields inp with
@@ -71,6 +218,28 @@ def handle (l : String) : String :=
     | some it =>
       let m := "ok " ++ hexOrDash (enc it)
       verdict m go false "encoding-differs-from-spec"
+  | ["tdec", td, hex] =>
+    match parseTyStr td, bytesOfHex hex with
+    | some ty, some bs =>
+      let m := outTDec ty bs
+      -- Spec judgement of the Go output: an accepted value, seen as an item, must re-encode to the input
+      -- (canonicity); a rejected input must not be the encoding of a supported value of the type.
+      let specOk :=
+        if go.startsWith "ok " then
+          match (parsePValStr (strDrop go 3)).bind PVal.toG with
+          | some g => g.enc == bs
+          | none => false
+        else if go == "err" then (match decTop ty bs with | .ok _ => false | .error _ => true)
+        else false
+      verdict m go specOk "typed-decode-accepts-noncanonical-or-rejects-canonical"
+    | _, _ => "bad-op\tspec-ok"   -- reported as broken correspondence: the driver must understand every typed line
+  | ["tenc", td, r] =>
+    match parseTyStr td, parsePValStr r with
+    | some ty, some pv =>
+      match fromP ty pv with
+      | some v => verdict ("ok " ++ hexOrDash (encTy ty v)) go false "typed-encoding-differs-from-spec"
+      | none => "bad-value\tspec-ok"
+    | _, _ => "bad-op\tspec-ok"
   | ["split", hex] =>
     match bytesOfHex hex with
     | none => "bad-op\tagree"
